@@ -112,13 +112,24 @@ pub fn denote(route: Route, text: &str, vals: &dyn Fn(&[String]) -> Vec<Term>) -
         let v = ex_msg(e.eval(&vals(&names)))?;
         Ok(Denotation { names, value: v })
     }
+    /// flat expressions: the owning entry points must give what the borrowing one gives
+    fn fin_flat(e: &F, vals: &dyn Fn(&[String]) -> Vec<Term>) -> Result<Denotation, String> {
+        let d = fin(e, vals)?;
+        let v = vals(&d.names);
+        let by_vec = ex_msg(e.eval_vec(v.clone())).map_err(|m| format!("eval_vec fails although eval succeeds: {m}"))?;
+        let by_iter = ex_msg(e.eval_iter(v.into_iter())).map_err(|m| format!("eval_iter fails although eval succeeds: {m}"))?;
+        if by_vec != d.value || by_iter != d.value {
+            return Err(format!("eval gives {:?}, eval_vec {:?}, eval_iter {:?}", d.value, by_vec, by_iter));
+        }
+        Ok(d)
+    }
     match route {
-        Route::Flat => fin(&ex_msg(F::parse(text))?, vals),
-        Route::FlatWo => fin(&ex_msg(F::parse_wo_compile(text))?, vals),
+        Route::Flat => fin_flat(&ex_msg(F::parse(text))?, vals),
+        Route::FlatWo => fin_flat(&ex_msg(F::parse_wo_compile(text))?, vals),
         Route::FlatWoCompiled => {
             let mut e = ex_msg(F::parse_wo_compile(text))?;
             e.compile();
-            fin(&e, vals)
+            fin_flat(&e, vals)
         }
         Route::FlatWoCompiledTwice => {
             let mut e = ex_msg(F::parse_wo_compile(text))?;
@@ -129,8 +140,8 @@ pub fn denote(route: Route, text: &str, vals: &dyn Fn(&[String]) -> Vec<Term>) -
         Route::Deep => fin(&ex_msg(D::parse(text))?, vals),
         Route::FlatToDeep => fin(&ex_msg(ex_msg(F::parse(text))?.to_deepex())?, vals),
         Route::WoToDeep => fin(&ex_msg(ex_msg(F::parse_wo_compile(text))?.to_deepex())?, vals),
-        Route::DeepToFlat => fin(&ex_msg(F::from_deepex(ex_msg(D::parse(text))?))?, vals),
-        Route::FlatDeepFlat => fin(&ex_msg(F::from_deepex(ex_msg(ex_msg(F::parse(text))?.to_deepex())?))?, vals),
+        Route::DeepToFlat => fin_flat(&ex_msg(F::from_deepex(ex_msg(D::parse(text))?))?, vals),
+        Route::FlatDeepFlat => fin_flat(&ex_msg(F::from_deepex(ex_msg(ex_msg(F::parse(text))?.to_deepex())?))?, vals),
         Route::DeepFlatDeep => {
             fin(&ex_msg(ex_msg(F::from_deepex(ex_msg(D::parse(text))?))?.to_deepex())?, vals)
         }
